@@ -72,6 +72,7 @@ struct Inner {
     families: BTreeMap<String, FamilyStats>,
     samples: Vec<String>,
     sample_counts: BTreeMap<String, u64>,
+    violation_groups: BTreeMap<String, u64>,
     violations: Vec<Violation>,
     violation_count: u64,
     machinery_errors: Vec<String>,
@@ -99,7 +100,7 @@ impl Report {
             tier: tier.into(),
             inner: Mutex::new(Inner::default()),
             start: std::time::Instant::now(),
-            max_violations: 200,
+            max_violations: 1500,
             max_samples_per_family: 3,
         }
     }
@@ -144,9 +145,16 @@ impl Report {
         g.sample_counts.get(fam).map_or(true, |n| *n < 2)
     }
     pub fn violation(&self, key: String, detail: String) {
+        // record at most 12 per group (group = key without its last field) and max_violations total
+        let group = match key.rfind('|') {
+            Some(i) => key[..i].to_string(),
+            None => key.clone(),
+        };
         let mut g = self.inner.lock().unwrap();
         g.violation_count += 1;
-        if g.violations.len() < self.max_violations {
+        let n = g.violation_groups.entry(group).or_insert(0);
+        *n += 1;
+        if *n <= 12 && g.violations.len() < self.max_violations {
             g.violations.push(Violation { key, detail });
         }
     }
